@@ -246,6 +246,42 @@ def h_dataflow(ctx, depth, options):
     return obs
 
 
+def h_post_construct(ctx, depth, options):
+    """layers added to an assembled stack (addPostConstructLayer, the way getDefaultStack-style code puts the application on top):
+    the grown stack carries data and events through every layer, old and new, exactly like a stack declared with them"""
+    shape = _choose_shape(ctx, depth, options)
+    style = ctx.choice("style", ["classes", "implicit", "instances"])
+    extra = ctx.choice("layers_added", [1, 2])
+    L, Y = _mods()
+    st, names, log = _build(shape, style, False)
+    names = [list(g) for g in names]
+    for j in range(extra):
+        c = _rec_class("P%d" % j)
+        c.LOG, c.CONSUME = log, set()
+        st.addPostConstructLayer(c())
+        names.append(["P%d" % j])
+    obs = []
+    for pos in range(len(names)):
+        inst = st.getLayer(pos)
+        got = [x.NAME for x in inst.sublayers] if isinstance(inst, L.YowParallelLayer) else [inst.NAME]
+        obs.append(("layer-order@%d" % pos, got == names[pos]))
+    del log[:]
+    st.send(())
+    arrivals = [e[2] + (e[1],) for e in log if e[0] == "send" and e[1] in names[0]]
+    obs.append(("send from the new top: offered to every member, outputs continue downward, in order", arrivals == ref_down(names)))
+    del log[:]
+    st.receive(())
+    arrivals = [e[2] + (e[1],) for e in log if e[0] == "recv" and e[1] in names[-1]]
+    obs.append(("receive: reaches the new top through every layer, in order", arrivals == ref_up(names)))
+    for direction in ("emit", "broadcast"):
+        del log[:]
+        ev = L.YowLayerEvent("probe")
+        (st.emitEvent if direction == "emit" else st.broadcastEvent)(ev)
+        seen = [e[1] for e in log if e[0] == "event"]
+        obs.append(("%s from the stack: every layer sees the event once, in order" % direction, seen == ref_event(names, -1 if direction == "emit" else len(names), direction, ())))
+    return obs
+
+
 def _run_loop_once(st):
     """one pass over the stack's detached queue through the real loop()"""
     L, Y = _mods()
@@ -465,6 +501,8 @@ def cases(tier):
             for first in ([0, 2]):
                 cs.append(dict(name="dataflow[depth=%d,bottom=%d]" % (d, first), fn=_with_first(h_dataflow, first), args=(d, [0, 2]), max_paths=400000, timeout_s=3000, weight=3 ** d, keep_samples=3))
                 cs.append(dict(name="events[depth=%d,bottom=%d]" % (d, first), fn=_with_first(h_events, first), args=(d, [0, 2]), max_paths=800000, timeout_s=3400, weight=4 ** d, keep_samples=3))
+    for d in (1, 2, 3) if q else (1, 2, 3, 4):
+        cs.append(dict(name="post-construct[depth=%d]" % d, fn=h_post_construct, args=(d, opts), max_paths=200000, timeout_s=600 if q else 3000, weight=4 ** d, keep_samples=4))
     cs.append(dict(name="default-layers", fn=h_default_layers, keep_samples=16))
     cs.append(dict(name="default-stack", fn=h_default_stack, keep_samples=16, max_paths=200))
     cs.append(dict(name="builder[ops<=4]", fn=h_builder, args=(4,), keep_samples=8))
